@@ -78,6 +78,9 @@ def _rules():
             lambda R, c, rid: c08.rule_b(R, c, rid),
             lambda R, c, rid: preds.rule(R, c, rid, ["same_type"]),
         ],
+        "redone": [
+            lambda R, c, rid: c12.rule_f(R, c, rid),
+        ],
         "flags": [
             lambda R, c, rid: preds.rule(R, c, rid, ["flags_check"]),
             lambda R, c, rid: preds.flag_table(R, c, rid),
@@ -98,7 +101,7 @@ DEPENDS = {
     "C09": ["slice", "partial", "content"],
     "C12": ["splice", "squash", "lookup"],
     "C13": ["splice", "delete-set", "lookup", "content", "export", "liveness"],
-    "C14": ["splice", "liveness", "lookup"],
+    "C14": ["splice", "liveness", "lookup", "redone"],
     "C15": ["squash", "splice", "content", "block-wire"],
     "C16": ["delete-set"],
     "C17": ["flags", "content", "map-api"],
